@@ -153,7 +153,7 @@ func registerCrypterKinds(c *core.Ctx) {
 }
 
 type suiteInfo struct {
-	id        kex.CipherSuiteID
+	id                kex.CipherSuiteID
 	kSEK, kSVK, ivLen int
 }
 
@@ -264,7 +264,10 @@ func RunC05(c *core.Ctx) {
 			if err := cbor.Unmarshal(wire, &tag); err != nil {
 				continue
 			}
-			retag := func(n uint64, body []byte) []byte { b, _ := cbor.Marshal(cbor.Tag[cbor.RawBytes]{Num: n, Val: body}); return b }
+			retag := func(n uint64, body []byte) []byte {
+				b, _ := cbor.Marshal(cbor.Tag[cbor.RawBytes]{Num: n, Val: body})
+				return b
+			}
 			for _, tn := range []uint64{16, 17, 18, 0, 96, 97} {
 				if tn != tag.Num {
 					try(su, sek, svk, retag(tn, tag.Val), "retag", false)
